@@ -77,6 +77,13 @@ fn run<G: Group>(sc: &Scenario, st: &mut RunStats) -> Vec<Violation> {
     if sc.cfg.m >= 2 {
         st.probe("aggregated");
     }
+    // three seeded fault indices get the large-batch delivery as well
+    let big_sample: Vec<usize> = if sc.cfg.full_length() <= 64 && !faults.is_empty() {
+        let mut r = frng.split("big");
+        (0..3).map(|_| r.usize_below(faults.len())).collect()
+    } else {
+        vec![]
+    };
     for (i, f) in faults.iter().enumerate() {
         if let Some(only) = sc.only {
             if only != i {
@@ -155,6 +162,39 @@ fn run<G: Group>(sc: &Scenario, st: &mut RunStats) -> Vec<Violation> {
                             ));
                             return out;
                         }
+                    }
+                }
+            }
+        }
+        // beyond the verifier's chunk limit: the altered triple in the FIRST chunk of a batch of 257 whose
+        // other members (hence the whole last chunk) are valid — for a seeded sample of faults only
+        if !encoding_only && big_sample.contains(&i) {
+            if let (Some((cst, cpr)), Ok(Delivered::Ready(bst, bpr))) = (&companion, guarded(|| bad.open())) {
+                for pos in [0usize, 255] {
+                    let mut sts = vec![cst.clone(); 257];
+                    let mut prs = vec![cpr.clone(); 257];
+                    let mut ctxs: Vec<&Context> = vec![&cctx; 257];
+                    sts[pos] = bst.clone();
+                    prs[pos] = bpr.clone();
+                    ctxs[pos] = &bad.ctx;
+                    st.evals += 1;
+                    let r = verify::<G>(&ctxs, &sts, &prs, VerifyAction::VerifyOnly);
+                    st.probe("delivered_in_first_chunk_of_a_large_batch");
+                    if !is_err(&r) {
+                        out.push(Violation::new(
+                            if is_ok(&r) { "altered_triple_accepted" } else { "altered_triple_panicked" },
+                            format!("{:?} in large batch", f),
+                            format!(
+                                "fault #{} {:?} applied to an accepted triple (cfg={:?}, group {}), delivered at position {} of a batch of 257 whose other members are valid: {}",
+                                i,
+                                f,
+                                sc.cfg,
+                                G::NAME,
+                                pos,
+                                if is_ok(&r) { "Ok".to_string() } else { render_verify(&r) }
+                            ),
+                        ));
+                        return out;
                     }
                 }
             }
@@ -302,7 +342,7 @@ impl Check for C05 {
             "flip_bit", "replace_scalar", "replace_point", "drop_round", "add_round", "retag_extension", "truncate",
             "extend", "swap_commitments", "replace_commitment", "promise", "bits", "generator_h", "generator_g",
             "context_label", "context_extra", "ext_6", "ext_4", "m_ge_8", "aggregated", "add_many_rounds",
-            "delivered_in_batch_context", "delivered_next_to_its_original",
+            "delivered_in_batch_context", "delivered_next_to_its_original", "delivered_in_first_chunk_of_a_large_batch",
         ]
     }
 }
